@@ -33,6 +33,11 @@ def run_case(rng, res, idx, replaying=False):
                          factor_dtypes=(None, 'float32', 'float64', 'bfloat16') if low else (None, 'float64'),
                          inv_dtypes=('float32', 'float64', 'bfloat16') if low else ('float32', 'float64'),
                          kl=('const', 'big'))
+    if rng.random() < 0.35:
+        # a damping schedule: second-order data is refreshed every step so that "current factors, current damping" stays well defined
+        cfg['I'] = ('const', 1)
+        cfg['F'] = ('const', rng.choice([1, 1, 2]))
+        cfg['damping'] = rng.choice([('lin', cfg['damping'][1], rng.choice([0.5, 1.0, -0.1])), ('cyc', cfg['damping'][1] * 2, cfg['damping'][1] * 0.3, 3)])
     psd_load = rng.random() < 0.12 and cfg['method'] == 'eigen'
     try:
         s = kh.Session(rng, cfg, with_ref=False)
